@@ -74,6 +74,9 @@ def canary_fails(pr, p) -> bool:
     return p[9] is not None and p[9] < pr[9]
 
 
+PRESCRIBED = {"none": "ignore", "suspicious": "monitor", "confirmed": "isolate", "critical": "shutdown"}
+
+
 def one_step_or_same(orig: str, mod: str) -> bool:
     if orig == mod:
         return True
@@ -615,6 +618,11 @@ class C17(Prop):
                         out.append(Violation("critical_never_changed", ra, o, idx))
                 if level == "critical" and action != "shutdown":
                     out.append(Violation("critical_never_softened", "shutdown", o, idx))
+                # whatever path produced the response (T cell or memory, first or repeated inspection): the action is
+                # the one the reported level calls for, or exactly one rung below it
+                if level in PRESCRIBED and not one_step_or_same(PRESCRIBED[level], action):
+                    out.append(Violation("tolerance_one_step", f"{PRESCRIBED[level]} or one step below for a "
+                                         f"{level} report", o, idx))
                 if level in ("confirmed", "critical"):
                     remembered.add((a, p[6], p[7]))
         return out
@@ -1086,6 +1094,38 @@ class C17(Prop):
                 emit_inspect()
         return {"lines": lines, "note": "pipeline with the real MHCDisplay"}
 
+    def case_pipeline_repeat(self, rng):
+        """repeat inspections with identical hashes under an active suppressing rule: the threat is lowered when it is
+        first reported and stored; recalled answers must not be lowered again"""
+        sev = rng.choice(["confirmed", "confirmed", "critical", "suspicious"])
+        cond = rng.choice(["T", "T", "C", "V1", "K0"])
+        extra = [f"{rng.choice(LEVELS)}:{rng.choice(CONDS[:-1])}" for _ in range(rng.choice([0, 0, 1]))]
+        rules = [f"{sev}:{cond}"] + extra
+        rng.shuffle(rules)
+        lines = [" ".join(["sys", str(rng.choice([10, 3, 1])), "2", "1/2", str(rng.choice([100, 100, 0, 2])),
+                           str(rng.choice([1000, 1000, 2, 1]))] + rules)]
+        a = rng.choice([0, 1])
+        base = self.grid_fp(rng)[:9] + (rng.choice([None, None, F(1)]),)
+        lines += [f"reg {a}", f"show {a} " + " ".join(fp_tokens(base)), f"train {a}"]
+        kind = rng.choice(["one", "one", "many"])
+        threat = list(base)
+        threat[2] = base[2] + F(8)
+        if kind == "many":
+            threat[0] = base[0] + F(500)
+            threat[4] = F(0)
+        threat = tuple(threat)
+        if rng.random() < 0.5:
+            lines.append(f"pflag {a} 1")
+        lines.append(f"show {a} " + " ".join(fp_tokens(threat)))
+        for _ in range(rng.choice([4, 5, 7])):
+            lines.append(f"pinspect {a}")
+            if rng.random() < 0.15:
+                lines.append(rng.choice([f"pflag {a} 1", f"preset {a}", f"show {a} " + " ".join(fp_tokens(threat))]))
+        if rng.random() < 0.5:
+            lines += [f"show {a} " + " ".join(fp_tokens(base)), f"pinspect {a}",
+                      f"show {a} " + " ".join(fp_tokens(threat)), f"pinspect {a}", f"pinspect {a}"]
+        return {"lines": lines, "note": "pipeline repeat inspections under an active rule"}
+
     def case_malformed(self, rng):
         junk = ["", "inspect", "inspect 1 2 3", "tcell 3 5", "evaluate none", "pinspect", "show 0", "train", "frobnicate 1",
                 "ttrain 0 0 0", "treset", "flag 1", "check 1 2 3 4 5 6 7 8 9 none", "sample 1 2"]
@@ -1096,7 +1136,9 @@ class C17(Prop):
         produced = 0
         while produced < n:
             x = rng.random()
-            if x < 0.06:
+            if x < 0.05:
+                c = self.case_pipeline_repeat(rng)
+            elif x < 0.10:
                 c = self.case_pipeline_anergy(rng)
             elif x < 0.16:
                 c = self.case_display(rng)
